@@ -49,7 +49,10 @@ Lemma persisted_app : forall c s tr x,
   fold_left (fun acc ev => match ev with Persist s' v => if s' =? s then v else acc | _ => acc end) x (persisted c s tr).
 Proof. intros; unfold persisted; apply fold_left_app. Qed.
 Lemma accounted_app : forall s e tr x, accounted s e tr -> accounted s e (tr ++ x).
-Proof. intros s e tr x [H|H]; [left|right]; apply in_or_app; auto. Qed.
+Proof.
+  intros s e tr x [H|(f & t & H & Hr)]; [left; apply in_or_app; auto|].
+  right. exists f, t. split; auto. apply in_or_app; auto.
+Qed.
 
 Definition all_safe (c : config) (log : list entry) (tr : list tev) : Prop :=
   forall pre post, tr = pre ++ post -> safe_at c log pre.
@@ -293,18 +296,21 @@ Proof.
 Qed.
 
 Lemma toolong_inv : forall c log m s v,
-  Inv c log m -> Inv c log (set_state (emit m [TooLong s; Persist s v]) s v).
+  Inv c log m -> Inv c log (set_state (emit m [TooLong s (bstate (mbox m s)) v; Persist s v]) s v).
 Proof.
   intros c log m s v HI.
-  assert (H1 : Inv c log (emit m [TooLong s])) by (apply emit_nonpersist_inv; auto).
-  assert (Hacc : forall e, accounted s e (mtr (emit m [TooLong s]))).
-  { intros e. right. simpl. apply in_or_app. right. simpl; auto. }
-  assert (H2 : Inv c log (emit (emit m [TooLong s]) [Persist s v])) by (apply emit_persist_inv; auto).
+  assert (H1 : Inv c log (emit m [TooLong s (bstate (mbox m s)) v])) by (apply emit_nonpersist_inv; auto).
+  assert (Hacc : forall e, In e log -> eseq e = s -> 0 <= s -> base c s < epos e <= v ->
+                           accounted s e (mtr (emit m [TooLong s (bstate (mbox m s)) v]))).
+  { intros e A B C D. rewrite mtr_emit. destruct (Z_le_gt_dec (epos e) (bstate (mbox m s))).
+    - apply accounted_app. apply (inv_cov _ _ _ HI); auto. lia.
+    - right. exists (bstate (mbox m s)), v. split; [apply in_or_app; right; simpl; auto|lia]. }
+  assert (H2 : Inv c log (emit (emit m [TooLong s (bstate (mbox m s)) v]) [Persist s v])) by (apply emit_persist_inv; auto).
   rewrite emit_emit in H2. simpl in H2.
-  apply set_state_inv; auto. intros. simpl.
-  replace (mtr m ++ [TooLong s; Persist s v]) with ((mtr m ++ [TooLong s]) ++ [Persist s v])
+  apply set_state_inv; auto. intros e A B C D. rewrite mtr_emit.
+  replace (mtr m ++ [TooLong s (bstate (mbox m s)) v; Persist s v]) with ((mtr m ++ [TooLong s (bstate (mbox m s)) v]) ++ [Persist s v])
     by (rewrite <- app_assoc; reflexivity).
-  apply accounted_app. apply Hacc.
+  apply accounted_app. rewrite <- mtr_emit. apply Hacc; auto.
 Qed.
 
 (* deliver every pending entry of sequence s up to cut, store cut, move the box to cut *)
@@ -338,9 +344,9 @@ Proof.
     set (reqp := bstate (mbox m1 0)). set (reqq := bstate (mbox m1 1)).
     destruct (pend log 0 reqp (vis 0) ++ pend log 1 reqq (vis 1)) as [|e0 l0] eqn:Epq.
     { apply set_state_inv; auto. intros e _ _ H0. apply (seq_cond _ H0). }
-    destruct ((0 <? tl_thr c) && (vis 0 - reqp >? tl_thr c)).
+    destruct (tlf c vis reqp).
     + apply IH; auto. apply toolong_inv; auto.
-    + destruct (slice_cut2 (slice_lim c) log vis reqp reqq) as [[cut cutq] sliced].
+    + destruct (cutf c log vis reqp reqq) as [[cut cutq] sliced].
       set (pp' := pend log 0 reqp cut). set (qq := pend log 1 reqq cutq).
       set (D := delivers (filter (fun e => negb (is_msg e)) pp' ++ filter (fun e => negb (is_msg e)) qq)
                 ++ delivers (filter is_msg pp' ++ filter is_msg qq)).
@@ -401,9 +407,9 @@ Proof.
       apply set_state_inv; [apply emit_persist_inv; auto|].
       intros. simpl. apply accounted_app. apply Hc; auto.
     + rewrite <- Ep. clear Ep.
-      destruct ((0 <? ctl_thr c) && (vis s - req >? ctl_thr c)).
+      destruct (ctlf c s (vis s) req).
       * apply toolong_inv; auto.
-      * destruct (slice_cut (cslice_lim c) (pend log s req (vis s)) (vis s)) as [cut sliced].
+      * destruct (ccutf c s (pend log s req (vis s)) (vis s)) as [cut sliced].
         set (pp' := pend log s req cut).
         set (D := delivers (filter (fun e => negb (is_msg e)) pp') ++ delivers (filter is_msg pp')).
         assert (HD : forall e, In e pp' -> In (Deliver s (eid e)) D).
@@ -491,6 +497,26 @@ Qed.
 Lemma mrun_inv : forall c log ops, wf_log log -> Inv c log (mrun c log ops).
 Proof. intros. apply mrun_from_inv; auto. apply mgr_init_inv. Qed.
 
+(* ---------- what is assumed of the server's policy ---------- *)
+(* final answers bring the client to the horizon; cuts lie between the request and the
+   horizon; a non-final answer makes progress; too long is not answered to a client that is
+   already at the horizon, nor after it was refused for a lower request *)
+Record server_ok (c : config) : Prop := {
+  cut_final : forall log vis rp rq a b, cutf c log vis rp rq = (a, b, false) -> a = vis 0 /\ b = vis 1;
+  cut_bounds : forall log vis rp rq a b sl, rp <= vis 0 -> rq <= vis 1 -> cutf c log vis rp rq = (a, b, sl) ->
+               rp <= a <= vis 0 /\ rq <= b <= vis 1;
+  cut_progress : forall log vis rp rq a b, cutf c log vis rp rq = (a, b, true) ->
+               rp <= a /\ rq <= b /\
+               (length (pend log 0%Z a (vis 0%Z)) + length (pend log 1%Z b (vis 1%Z)) <
+                length (pend log 0%Z rp (vis 0%Z)) + length (pend log 1%Z rq (vis 1%Z)))%nat;
+  tl_horizon : forall vis, tlf c vis (vis 0) = false;
+  tl_mono : forall vis rp a, tlf c vis rp = false -> rp <= a -> tlf c vis a = false;
+  ccut_final : forall s pp v a, ccutf c s pp v = (a, false) -> a = v;
+  ccut_bounds : forall log s req v a sl, req <= v -> ccutf c s (pend log s req v) v = (a, sl) -> req <= a <= v;
+  ccut_progress : forall log s req v a, ccutf c s (pend log s req v) v = (a, true) ->
+               (length (pend log s a v) < length (pend log s req v))%nat
+}.
+
 (* ---------- a completed recovery leaves nothing pending ---------- *)
 Lemma pend_same_nil : forall log s v, pend log s v v = [].
 Proof.
@@ -511,42 +537,44 @@ Proof.
 Qed.
 
 Lemma get_diff_drained : forall fuel c log vis m,
+  server_ok c ->
   moof (get_diff fuel c log vis m) = false ->
   pend log 0 (bstate (mbox (get_diff fuel c log vis m) 0)) (vis 0) ++
   pend log 1 (bstate (mbox (get_diff fuel c log vis m) 1)) (vis 1) = [].
 Proof.
-  induction fuel as [|f IH]; intros c log vis m.
+  induction fuel as [|f IH]; intros c log vis m Hok.
   - simpl. discriminate.
   - cbn [get_diff]. cbv zeta.
     set (m1 := clear_gaps (clear_gaps (clear_gaps m 0) 1) SEQ).
     set (reqp := bstate (mbox m1 0)). set (reqq := bstate (mbox m1 1)).
     destruct (pend log 0 reqp (vis 0) ++ pend log 1 reqq (vis 1)) as [|e0 l0] eqn:Epq.
     { intros _. rewrite !bstate_set_state. change (0 =? SEQ) with false. change (1 =? SEQ) with false. exact Epq. }
-    destruct ((0 <? tl_thr c) && (vis 0 - reqp >? tl_thr c)); [apply IH|].
-    destruct (slice_cut2 (slice_lim c) log vis reqp reqq) as [[cut cutq] sliced] eqn:Ec.
-    destruct sliced; [apply IH|].
-    intros _. apply slice_cut2_final in Ec. destruct Ec as [-> ->]. rewrite !bstate_set_state, !mbox_emit.
+    destruct (tlf c vis reqp); [apply IH; auto|].
+    destruct (cutf c log vis reqp reqq) as [[cut cutq] sliced] eqn:Ec.
+    destruct sliced; [apply IH; auto|].
+    intros _. apply (cut_final c Hok) in Ec. destruct Ec as [-> ->]. rewrite !bstate_set_state, !mbox_emit.
     change (0 =? SEQ) with false. change (1 =? SEQ) with false. change (0 =? 1) with false.
     change (1 =? 1) with true. change (0 =? 0) with true. cbv iota.
     rewrite !pend_same_nil. reflexivity.
 Qed.
 
 Lemma chan_diff_drained : forall fuel c log vis s m,
+  server_ok c ->
   moof (chan_diff fuel c log vis s m) = false ->
   pend log s (bstate (mbox (chan_diff fuel c log vis s m) s)) (vis s) = [].
 Proof.
-  induction fuel as [|f IH]; intros c log vis s m.
+  induction fuel as [|f IH]; intros c log vis s m Hok.
   - simpl. discriminate.
   - cbn [chan_diff]. cbv zeta.
     set (m1 := clear_gaps m s). set (req := bstate (mbox m1 s)).
     destruct (pend log s req (vis s)) as [|e0 l0] eqn:Ep.
     + intros _. simpl. rewrite Z.eqb_refl. simpl. apply pend_same_nil.
     + rewrite <- Ep. clear Ep.
-      destruct ((0 <? ctl_thr c) && (vis s - req >? ctl_thr c)).
+      destruct (ctlf c s (vis s) req).
       * intros _. simpl. rewrite Z.eqb_refl. simpl. apply pend_same_nil.
-      * destruct (slice_cut (cslice_lim c) (pend log s req (vis s)) (vis s)) as [cut sliced] eqn:Ec.
-        destruct sliced; [apply IH|].
-        intros _. apply slice_cut_final in Ec. subst cut. simpl. rewrite Z.eqb_refl. simpl. apply pend_same_nil.
+      * destruct (ccutf c s (pend log s req (vis s)) (vis s)) as [cut sliced] eqn:Ec.
+        destruct sliced; [apply IH; auto|].
+        intros _. apply (ccut_final c Hok) in Ec. subst cut. simpl. rewrite Z.eqb_refl. simpl. apply pend_same_nil.
 Qed.
 
 Lemma drained_cov : forall c log m s v e,
@@ -566,32 +594,32 @@ Proof. intros. unfold mrun. rewrite fold_left_app. reflexivity. Qed.
 (* C02, common sequences: after a completed getDifference at horizon vis every log entry of
    pts / qts up to vis has reached the handler or was reported too long *)
 Theorem no_loss_common : forall c log ops vis,
-  wf_log log ->
+  wf_log log -> server_ok c ->
   let m := mrun c log (ops ++ [MTooLong vis]) in
   moof m = false ->
   forall s e, (s = 0 \/ s = 1) -> In e log -> eseq e = s -> base c s < epos e <= vis s -> accounted s e (mtr m).
 Proof.
-  intros c log ops vis Hwf m Hf s e Hs H1 H2 H4.
+  intros c log ops vis Hwf Hok m Hf s e Hs H1 H2 H4.
   assert (HI : Inv c log m) by (apply mrun_inv; auto).
   unfold m in *. rewrite mrun_snoc in *. cbn [mstep] in *.
-  pose proof (get_diff_drained _ _ _ _ _ Hf) as Hd. apply app_eq_nil in Hd. destruct Hd as [Hd0 Hd1].
+  pose proof (get_diff_drained _ _ _ _ _ Hok Hf) as Hd. apply app_eq_nil in Hd. destruct Hd as [Hd0 Hd1].
   destruct Hs as [->| ->]; eapply drained_cov; eauto; lia.
 Qed.
 
 (* C02, channels *)
 Theorem no_loss_channel : forall c log ops vis s,
-  wf_log log -> 2 <= s < nseq c -> mtracked (mrun c log ops) s = true ->
+  wf_log log -> server_ok c -> 2 <= s < nseq c -> mtracked (mrun c log ops) s = true ->
   let m := mrun c log (ops ++ [MChanTooLong vis s]) in
   moof m = false ->
   forall e, In e log -> eseq e = s -> base c s < epos e <= vis s -> accounted s e (mtr m).
 Proof.
-  intros c log ops vis s Hwf Hs Htr m Hf e H1 H2 H4.
+  intros c log ops vis s Hwf Hok Hs Htr m Hf e H1 H2 H4.
   assert (HI : Inv c log m) by (apply mrun_inv; auto).
   unfold m in *. rewrite mrun_snoc in *. cbn [mstep] in *.
   assert (E : (2 <=? s) && (s <? nseq c) && mtracked (mrun c log ops) s = true)
     by (rewrite Htr, !andb_true_iff, Z.leb_le, Z.ltb_lt; repeat split; auto; lia).
   rewrite E in *.
-  pose proof (chan_diff_drained _ _ _ _ _ _ Hf) as Hd.
+  pose proof (chan_diff_drained _ _ _ _ _ _ Hok Hf) as Hd.
   eapply drained_cov; eauto; lia.
 Qed.
 
@@ -610,25 +638,26 @@ Proof. intros c log ops pre post Hwf E. eapply (inv_safe c log _ (mrun_inv c log
 (* C03 restart: crash after any prefix, restart from the persisted positions of that prefix,
    recover: both runs together account for the whole log up to the horizon *)
 Definition rebase (c : config) (b : Z -> Z) : config :=
-  {| nseq := nseq c; base := b; tracked0 := tracked0 c; slice_lim := slice_lim c; tl_thr := tl_thr c;
-     cslice_lim := cslice_lim c; ctl_thr := ctl_thr c |}.
+  {| nseq := nseq c; base := b; tracked0 := tracked0 c; cutf := cutf c; tlf := tlf c; ccutf := ccutf c; ctlf := ctlf c |}.
+Lemma rebase_ok : forall c b, server_ok c -> server_ok (rebase c b).
+Proof. intros c b H. constructor; simpl; apply H. Qed.
 
 Theorem restart_common : forall c log ops pre post ops2 vis,
-  wf_log log -> mtr (mrun c log ops) = pre ++ post ->
+  wf_log log -> server_ok c -> mtr (mrun c log ops) = pre ++ post ->
   let c2 := rebase c (fun s => persisted c s pre) in
   let m2 := mrun c2 log (ops2 ++ [MTooLong vis]) in
   moof m2 = false ->
   forall s e, (s = 0 \/ s = 1) -> In e log -> eseq e = s -> base c s < epos e <= vis s ->
               accounted s e pre \/ accounted s e (mtr m2).
 Proof.
-  intros c log ops pre post ops2 vis Hwf E c2 m2 Hf s e Hs H1 H2 H4.
+  intros c log ops pre post ops2 vis Hwf Hok E c2 m2 Hf s e Hs H1 H2 H4.
   destruct (Z_le_gt_dec (epos e) (persisted c s pre)).
   - left. eapply prefix_safe; eauto; lia.
-  - right. apply (no_loss_common c2 log ops2 vis Hwf Hf s e Hs H1 H2). simpl. lia.
+  - right. apply (no_loss_common c2 log ops2 vis Hwf (rebase_ok _ _ Hok) Hf s e Hs H1 H2). simpl. lia.
 Qed.
 
 Theorem restart_channel : forall c log ops pre post ops2 vis s,
-  wf_log log -> 2 <= s < nseq c -> mtr (mrun c log ops) = pre ++ post ->
+  wf_log log -> server_ok c -> 2 <= s < nseq c -> mtr (mrun c log ops) = pre ++ post ->
   let c2 := rebase c (fun s => persisted c s pre) in
   mtracked (mrun c2 log ops2) s = true ->
   let m2 := mrun c2 log (ops2 ++ [MChanTooLong vis s]) in
@@ -636,10 +665,10 @@ Theorem restart_channel : forall c log ops pre post ops2 vis s,
   forall e, In e log -> eseq e = s -> base c s < epos e <= vis s ->
             accounted s e pre \/ accounted s e (mtr m2).
 Proof.
-  intros c log ops pre post ops2 vis s Hwf Hs E c2 Htr m2 Hf e H1 H2 H4.
+  intros c log ops pre post ops2 vis s Hwf Hok Hs E c2 Htr m2 Hf e H1 H2 H4.
   destruct (Z_le_gt_dec (epos e) (persisted c s pre)).
   - left. eapply prefix_safe; eauto; lia.
-  - right. apply (no_loss_channel c2 log ops2 vis s Hwf Hs Htr Hf e H1 H2). simpl. lia.
+  - right. apply (no_loss_channel c2 log ops2 vis s Hwf (rebase_ok _ _ Hok) Hs Htr Hf e H1 H2). simpl. lia.
 Qed.
 
 (* ---------- manager-level at most once (C01 at the handler) ---------- *)
@@ -838,11 +867,11 @@ Proof.
 Qed.
 
 Lemma get_diff_inv2 : forall fuel c log vis m,
-  wf_log log -> NoDup (map eid log) -> Inv2 log m ->
+  wf_log log -> NoDup (map eid log) -> server_ok c -> Inv2 log m ->
   bstate (mbox m 0) <= vis 0 -> bstate (mbox m 1) <= vis 1 ->
   Inv2 log (get_diff fuel c log vis m).
 Proof.
-  induction fuel as [|f IH]; intros c log vis m Hwf Hu H2 Hv0 Hv1.
+  induction fuel as [|f IH]; intros c log vis m Hwf Hu Hok H2 Hv0 Hv1.
   - constructor; simpl; apply H2.
   - cbn [get_diff]. cbv zeta.
     set (m1 := clear_gaps (clear_gaps (clear_gaps m 0) 1) SEQ).
@@ -863,14 +892,14 @@ Proof.
       - simpl. rewrite app_nil_r. reflexivity.
       - simpl. constructor.
       - intros s id []. }
-    destruct ((0 <? tl_thr c) && (vis 0 - reqp >? tl_thr c)).
+    destruct (tlf c vis reqp).
     + apply IH; auto; try (bst; simpl; try fold reqq; lia).
-      apply (inv2_step log m1 _ [TooLong 0; Persist 0 (vis 0)]); auto.
+      apply (inv2_step log m1 _ [TooLong 0 reqp (vis 0); Persist 0 (vis 0)]); auto.
       * intros s _. bst. destruct (Z.eqb_spec s 0); [subst; fold reqp; lia|lia].
       * simpl. constructor.
       * intros s id [].
-    + destruct (slice_cut2 (slice_lim c) log vis reqp reqq) as [[cut cutq] sliced] eqn:Ec.
-      destruct (slice_cut2_bounds _ _ _ _ _ _ _ _ Hrp Hrq Ec) as [Hcut Hcutq].
+    + destruct (cutf c log vis reqp reqq) as [[cut cutq] sliced] eqn:Ec.
+      destruct (cut_bounds c Hok _ _ _ _ _ _ _ Hrp Hrq Ec) as [Hcut Hcutq].
       set (pp' := pend log 0 reqp cut). set (qq := pend log 1 reqq cutq).
       set (Lo := filter (fun e => negb (is_msg e)) pp' ++ filter (fun e => negb (is_msg e)) qq).
       set (Lm := filter is_msg pp' ++ filter is_msg qq).
@@ -910,11 +939,11 @@ Proof.
 Qed.
 
 Lemma chan_diff_inv2 : forall fuel c log vis s m,
-  wf_log log -> NoDup (map eid log) -> 0 <= s -> Inv2 log m ->
+  wf_log log -> NoDup (map eid log) -> server_ok c -> 0 <= s -> Inv2 log m ->
   bstate (mbox m s) <= vis s ->
   Inv2 log (chan_diff fuel c log vis s m).
 Proof.
-  induction fuel as [|f IH]; intros c log vis s m Hwf Hu Hs H2 Hv.
+  induction fuel as [|f IH]; intros c log vis s m Hwf Hu Hok Hs H2 Hv.
   - constructor; simpl; apply H2.
   - cbn [chan_diff]. cbv zeta.
     set (m1 := clear_gaps m s).
@@ -934,20 +963,13 @@ Proof.
       * simpl. constructor.
       * intros s1 id [].
     + rewrite <- Ep. clear Ep.
-      destruct ((0 <? ctl_thr c) && (vis s - req >? ctl_thr c)).
-      * apply (inv2_step log m1 _ [TooLong s; Persist s (vis s)]); auto.
+      destruct (ctlf c s (vis s) req).
+      * apply (inv2_step log m1 _ [TooLong s req (vis s); Persist s (vis s)]); auto.
         -- intros s1 _. bst. destruct (Z.eqb_spec s1 s); [subst; fold req; lia|lia].
         -- simpl. constructor.
         -- intros s1 id [].
-      * destruct (slice_cut (cslice_lim c) (pend log s req (vis s)) (vis s)) as [cut sliced] eqn:Ec.
-        assert (Hcut : req <= cut <= vis s).
-        { unfold slice_cut in Ec.
-          destruct ((0 <? cslice_lim c) && (cslice_lim c <? Z.of_nat (length (pend log s req (vis s))))) eqn:Eb;
-            inversion Ec; subst; [|lia].
-          apply andb_prop in Eb. destruct Eb as [Eb1 Eb2]. apply Z.ltb_lt in Eb1, Eb2.
-          assert (Hn : In (nth (Z.to_nat (cslice_lim c - 1)) (pend log s req (vis s)) dflt_entry) (pend log s req (vis s))).
-          { apply nth_In. lia. }
-          rewrite pend_in in Hn. lia. }
+      * destruct (ccutf c s (pend log s req (vis s)) (vis s)) as [cut sliced] eqn:Ec.
+        assert (Hcut : req <= cut <= vis s) by (eapply (ccut_bounds c Hok); eauto).
         set (pp' := pend log s req cut).
         set (L := filter (fun e => negb (is_msg e)) pp' ++ filter is_msg pp').
         assert (HP : Permutation L pp') by apply filter_perm.
@@ -1023,9 +1045,9 @@ Proof.
   { rewrite !mbox_clear_gaps_other; auto; unfold SEQ; lia. }
   destruct (_ ++ _).
   { rewrite mbox_set_state_other; [exact E1|unfold SEQ; lia]. }
-  destruct (_ && _).
+  destruct (tlf _ _ _).
   - rewrite IH; auto. rewrite mbox_set_state_other; [|lia]. rewrite mbox_emit. exact E1.
-  - destruct (slice_cut2 _ _ _ _ _) as [[cut cutq] sliced].
+  - destruct (cutf _ _ _ _ _) as [[cut cutq] sliced].
     destruct sliced; [rewrite IH; auto|];
       rewrite !mbox_set_state_other; try (unfold SEQ; lia); rewrite mbox_emit; exact E1.
 Qed.
@@ -1037,9 +1059,9 @@ Proof.
   assert (E1 : mbox (clear_gaps m s) s1 = mbox m s1) by (apply mbox_clear_gaps_other; auto).
   destruct (pend log s _ (vis s)) eqn:Ep.
   - rewrite mbox_set_state_other; auto.
-  - destruct (_ && _).
+  - destruct (ctlf _ _ _ _).
     + rewrite mbox_set_state_other; auto.
-    + destruct (slice_cut _ _ _) as [cut sliced].
+    + destruct (ccutf _ _ _ _) as [cut sliced].
       destruct sliced; [rewrite IH; auto|]; rewrite mbox_set_state_other; auto.
 Qed.
 
@@ -1048,16 +1070,16 @@ Proof.
   induction fuel as [|f IH]; intros c log vis s m; [reflexivity|].
   cbn [chan_diff]. cbv zeta.
   destruct (pend log s _ (vis s)); [reflexivity|].
-  destruct (_ && _); [reflexivity|].
-  destruct (slice_cut _ _ _) as [cut sliced]. destruct sliced; [rewrite IH|]; reflexivity.
+  destruct (ctlf _ _ _ _); [reflexivity|].
+  destruct (ccutf _ _ _ _) as [cut sliced]. destruct sliced; [rewrite IH|]; reflexivity.
 Qed.
 Lemma mtracked_get_diff : forall fuel c log vis m, mtracked (get_diff fuel c log vis m) = mtracked m.
 Proof.
   induction fuel as [|f IH]; intros c log vis m; [reflexivity|].
   cbn [get_diff]. cbv zeta.
   destruct (_ ++ _); [reflexivity|].
-  destruct (_ && _); [rewrite IH; reflexivity|].
-  destruct (slice_cut2 _ _ _ _ _) as [[cut cutq] sliced]. destruct sliced; [rewrite IH|]; reflexivity.
+  destruct (tlf _ _ _); [rewrite IH; reflexivity|].
+  destruct (cutf _ _ _ _ _) as [[cut cutq] sliced]. destruct sliced; [rewrite IH|]; reflexivity.
 Qed.
 Lemma mtracked_box_item : forall m s e, mtracked (box_item m s e) = mtracked m.
 Proof. intros. unfold box_item. destruct (handle _ _). reflexivity. Qed.
@@ -1079,10 +1101,10 @@ Proof.
 Qed.
 
 Lemma push_item_inv2 : forall c log vis m e,
-  wf_log log -> NoDup (map eid log) -> In e log -> Inv c log m -> Inv2 log m -> Hun c vis m ->
+  wf_log log -> NoDup (map eid log) -> server_ok c -> In e log -> Inv c log m -> Inv2 log m -> Hun c vis m ->
   Inv2 log (push_item c log vis m e).
 Proof.
-  intros c log vis m e Hwf Hu Hin HI H2 Hn. unfold push_item.
+  intros c log vis m e Hwf Hu Hok Hin HI H2 Hn. unfold push_item.
   destruct ((0 <=? eseq e) && (eseq e <? nseq c)) eqn:Hrange; [|exact H2].
   apply andb_prop in Hrange. destruct Hrange as [Hr0 Hr1]. apply Z.leb_le in Hr0. apply Z.ltb_lt in Hr1.
   destruct ((eseq e <? 2) || mtracked m (eseq e)) eqn:Et.
@@ -1120,10 +1142,10 @@ Proof.
 Qed.
 
 Lemma push_all : forall c log vis m ids,
-  wf_log log -> NoDup (map eid log) -> Inv c log m -> Inv2 log m -> Hun c vis m ->
+  wf_log log -> NoDup (map eid log) -> server_ok c -> Inv c log m -> Inv2 log m -> Hun c vis m ->
   Inv2 log (push c log vis m ids) /\ Hun c vis (push c log vis m ids).
 Proof.
-  intros c log vis m ids Hwf Hu HI H2 Hn. unfold push.
+  intros c log vis m ids Hwf Hu Hok HI H2 Hn. unfold push.
   set (items := isort route_key (flat_map (find_entry log) ids)).
   assert (Hitems : forall e, In e items -> In e log).
   { intros e He. unfold items in He. rewrite isort_in in He. rewrite in_flat_map in He.
@@ -1146,10 +1168,10 @@ Proof.
 Qed.
 
 Lemma pushc_apply_inv2 : forall c log vis m cid sq ids p,
-  wf_log log -> NoDup (map eid log) -> Inv c log m -> Inv2 log m -> Hun c vis m ->
+  wf_log log -> NoDup (map eid log) -> server_ok c -> Inv c log m -> Inv2 log m -> Hun c vis m ->
   Inv2 log (fst (fst (pushc_apply c log vis m cid sq ids p))).
 Proof.
-  intros c log vis m cid sq ids p Hwf Hu HI H2 Hn. unfold pushc_apply.
+  intros c log vis m cid sq ids p Hwf Hu Hok HI H2 Hn. unfold pushc_apply.
   destruct (sq =? 0); [simpl; apply push_all; auto|].
   destruct (handle _ _) as [sb evs]. simpl.
   assert (H0 : Inv c log (add_cont m cid ids p) /\ Inv2 log (add_cont m cid ids p) /\ Hun c vis (add_cont m cid ids p)).
@@ -1159,13 +1181,13 @@ Proof.
 Qed.
 
 Lemma mstep_inv2 : forall c log m o,
-  wf_log log -> NoDup (map eid log) -> Inv c log m -> Inv2 log m ->
+  wf_log log -> NoDup (map eid log) -> server_ok c -> Inv c log m -> Inv2 log m ->
   (forall s, 0 <= s < Z.max 2 (nseq c) -> bstate (mbox m s) <= op_vis o s) -> mid_ok c log m o ->
   Inv2 log (mstep c log m o).
 Proof.
-  intros c log m o Hwf Hu HI H2 Hv Hmid. destruct o; cbn [mstep]; simpl in Hv.
+  intros c log m o Hwf Hu Hok HI H2 Hv Hmid. destruct o; cbn [mstep]; simpl in Hv.
   - assert (Hn : Hun c vis m) by (intros s Hs _; apply Hv; lia).
-    pose proof (pushc_apply_inv2 c log vis m cid sq ids p Hwf Hu HI H2 Hn) as H.
+    pose proof (pushc_apply_inv2 c log vis m cid sq ids p Hwf Hu Hok HI H2 Hn) as H.
     simpl in Hmid.
     destruct (pushc_apply c log vis m cid sq ids p) as [[m1 rc] sb]. simpl in H, Hmid.
     assert (H3 : Inv2 log (if rc then get_diff (fuel_of log) c log vis m1 else m1)).
@@ -1195,10 +1217,10 @@ Proof.
 Qed.
 
 Lemma mrun_from_inv2 : forall c log ops m,
-  wf_log log -> NoDup (map eid log) -> Inv c log m -> Inv2 log m -> vis_ok c log m ops ->
+  wf_log log -> NoDup (map eid log) -> server_ok c -> Inv c log m -> Inv2 log m -> vis_ok c log m ops ->
   Inv2 log (fold_left (mstep c log) ops m).
 Proof.
-  intros c log ops. induction ops as [|o t IH]; intros m Hwf Hu HI H2 Hv; simpl; auto.
+  intros c log ops. induction ops as [|o t IH]; intros m Hwf Hu Hok HI H2 Hv; simpl; auto.
   destruct Hv as (Hv1 & Hvm & Hv2). apply IH; auto.
   - apply mstep_inv; auto.
   - apply mstep_inv2; auto.
@@ -1206,10 +1228,10 @@ Qed.
 
 (* C01 at the handler of the Manager: no sequenced update is delivered twice *)
 Theorem manager_at_most_once : forall c log ops,
-  wf_log log -> NoDup (map eid log) -> vis_ok c log (mgr_init c) ops ->
+  wf_log log -> NoDup (map eid log) -> server_ok c -> vis_ok c log (mgr_init c) ops ->
   NoDup (seq_delivers (mtr (mrun c log ops))).
 Proof.
-  intros c log ops Hwf Hu Hv. apply (inv2_nodup log).
+  intros c log ops Hwf Hu Hok Hv. apply (inv2_nodup log).
   apply mrun_from_inv2; auto.
   - apply mgr_init_inv.
   - constructor; simpl; [intros s id _ []|constructor].
@@ -1312,52 +1334,49 @@ Proof.
     pose proof (pend_len_lt log 1 rq (max_pos 1 rq pre) (vis 1) x G1 Hxl S1 ltac:(lia) ltac:(lia)). lia.
 Qed.
 
-Definition tlb (c : config) (vis : Z -> Z) (m : mgr) : bool := (0 <? tl_thr c) && (vis 0 - bstate (mbox m 0) >? tl_thr c).
+Definition tlb (c : config) (vis : Z -> Z) (m : mgr) : bool := tlf c vis (bstate (mbox m 0)).
 Definition mu (log : list entry) (vis : Z -> Z) (m : mgr) : nat :=
   (length (pend log 0%Z (bstate (mbox m 0%Z)) (vis 0%Z)) + length (pend log 1%Z (bstate (mbox m 1%Z)) (vis 1%Z)))%nat.
 
 Lemma get_diff_fuel : forall fuel c log vis m,
+  server_ok c ->
   moof m = false -> (mu log vis m + (if tlb c vis m then 1 else 0) + 1 <= fuel)%nat ->
   moof (get_diff fuel c log vis m) = false.
 Proof.
-  induction fuel as [|f IH]; intros c log vis m Hm Hf; [lia|].
+  induction fuel as [|f IH]; intros c log vis m Hok Hm Hf; [lia|].
   cbn [get_diff]. cbv zeta.
   set (m1 := clear_gaps (clear_gaps (clear_gaps m 0) 1) SEQ).
   assert (E0 : bstate (mbox m1 0) = bstate (mbox m 0)) by (unfold m1; rewrite !bstate_clear_gaps; reflexivity).
   assert (E1 : bstate (mbox m1 1) = bstate (mbox m 1)) by (unfold m1; rewrite !bstate_clear_gaps; reflexivity).
   rewrite E0, E1. unfold mu, tlb in Hf.
   destruct (_ ++ _); [exact Hm|].
-  destruct ((0 <? tl_thr c) && (vis 0 - bstate (mbox m 0) >? tl_thr c)) eqn:Et.
-  - apply IH; [exact Hm|]. unfold mu, tlb. bst. change (0 =? 0) with true. change (1 =? 0) with false. cbv iota.
-    rewrite E1, pend_same_nil. simpl length.
-    replace ((0 <? tl_thr c) && (vis 0 - vis 0 >? tl_thr c)) with false; [lia|].
-    symmetry. apply andb_false_iff. destruct (Z.ltb_spec 0 (tl_thr c)); [right|left; reflexivity].
-    rewrite Z.sub_diag, Z.gtb_ltb. apply Z.ltb_ge. lia.
-  - destruct (slice_cut2 (slice_lim c) log vis (bstate (mbox m 0)) (bstate (mbox m 1))) as [[cut cutq] sliced] eqn:Ec.
+  destruct (tlf c vis (bstate (mbox m 0))) eqn:Et.
+  - apply IH; [exact Hok|exact Hm|]. unfold mu, tlb. bst. change (0 =? 0) with true. change (1 =? 0) with false. cbv iota.
+    rewrite E1, pend_same_nil. simpl length. rewrite (tl_horizon c Hok). lia.
+  - destruct (cutf c log vis (bstate (mbox m 0)) (bstate (mbox m 1))) as [[cut cutq] sliced] eqn:Ec.
     destruct sliced; [|exact Hm].
-    apply slice2_shrinks in Ec. destruct Ec as (G0 & G1 & Hlt).
-    apply IH; [exact Hm|]. unfold mu, tlb. bst.
+    apply (cut_progress c Hok) in Ec. destruct Ec as (G0 & G1 & Hlt).
+    apply IH; [exact Hok|exact Hm|]. unfold mu, tlb. bst.
     change (0 =? SEQ) with false. change (1 =? SEQ) with false. change (0 =? 1) with false.
     change (1 =? 1) with true. change (0 =? 0) with true. cbv iota.
-    replace ((0 <? tl_thr c) && (vis 0 - cut >? tl_thr c)) with false; [lia|].
-    symmetry. apply andb_false_iff. apply andb_false_iff in Et. destruct Et as [Et|Et]; [left; exact Et|right].
-    rewrite Z.gtb_ltb in *. apply Z.ltb_ge in Et. apply Z.ltb_ge. lia.
+    rewrite (tl_mono c Hok vis _ cut Et G0). lia.
 Qed.
 
 Lemma chan_diff_fuel : forall fuel c log vis s m,
+  server_ok c ->
   moof m = false -> (length (pend log s (bstate (mbox m s)) (vis s)) + 1 <= fuel)%nat ->
   moof (chan_diff fuel c log vis s m) = false.
 Proof.
-  induction fuel as [|f IH]; intros c log vis s m Hm Hf; [lia|].
+  induction fuel as [|f IH]; intros c log vis s m Hok Hm Hf; [lia|].
   cbn [chan_diff]. cbv zeta.
   rewrite !bstate_clear_gaps.
   destruct (pend log s (bstate (mbox m s)) (vis s)) as [|e0 l0] eqn:Ep; [exact Hm|].
   rewrite <- Ep in Hf |- *.
-  destruct (_ && _); [exact Hm|].
-  destruct (slice_cut (cslice_lim c) (pend log s (bstate (mbox m s)) (vis s)) (vis s)) as [cut sliced] eqn:Ec.
+  destruct (ctlf _ _ _ _); [exact Hm|].
+  destruct (ccutf c s (pend log s (bstate (mbox m s)) (vis s)) (vis s)) as [cut sliced] eqn:Ec.
   destruct sliced; [|exact Hm].
-  apply IH; [exact Hm|].
-  rewrite bstate_set_state, Z.eqb_refl. apply pend_shrinks in Ec. lia.
+  apply IH; [exact Hok|exact Hm|].
+  rewrite bstate_set_state, Z.eqb_refl. apply (ccut_progress c Hok) in Ec. lia.
 Qed.
 
 Lemma pend_le_log : forall log s a b, (length (pend log s a b) <= length log)%nat.
@@ -1374,32 +1393,32 @@ Qed.
 
 Lemma moof_box_item : forall m s e, moof (box_item m s e) = moof m.
 Proof. intros. unfold box_item. destruct (handle _ _). reflexivity. Qed.
-Lemma push_item_moof : forall c log vis m e, moof m = false -> moof (push_item c log vis m e) = false.
+Lemma push_item_moof : forall c log vis m e, server_ok c -> moof m = false -> moof (push_item c log vis m e) = false.
 Proof.
-  intros c log vis m e Hm. unfold push_item.
+  intros c log vis m e Hok Hm. unfold push_item.
   destruct (_ && _); auto. destruct (_ || _); [rewrite moof_box_item; auto|].
-  destruct (_ =? _); auto. rewrite moof_box_item. apply chan_diff_fuel; [exact Hm|].
+  destruct (_ =? _); auto. rewrite moof_box_item. apply chan_diff_fuel; [exact Hok|exact Hm|].
   unfold fuel_of. match goal with |- (length (pend ?l ?s ?a ?b) + 1 <= _)%nat => pose proof (pend_le_log l s a b) end. lia.
 Qed.
-Lemma push_moof : forall c log vis m ids, moof m = false -> moof (push c log vis m ids) = false.
+Lemma push_moof : forall c log vis m ids, server_ok c -> moof m = false -> moof (push c log vis m ids) = false.
 Proof.
-  intros c log vis m ids Hm. unfold push. simpl.
+  intros c log vis m ids Hok Hm. unfold push. simpl.
   generalize (isort route_key (flat_map (find_entry log) ids)). intros items. revert m Hm.
   induction items as [|e t IH]; intros m Hm; simpl; auto. apply IH. apply push_item_moof; auto.
 Qed.
 
-Lemma get_diff_fuel_log : forall c log vis m, moof m = false -> moof (get_diff (fuel_of log) c log vis m) = false.
+Lemma get_diff_fuel_log : forall c log vis m, server_ok c -> moof m = false -> moof (get_diff (fuel_of log) c log vis m) = false.
 Proof.
   intros. apply get_diff_fuel; auto. unfold fuel_of. pose proof (mu_le_log log vis m). destruct (tlb c vis m); lia.
 Qed.
-Lemma chan_diff_fuel_log : forall c log vis s m, moof m = false -> moof (chan_diff (fuel_of log) c log vis s m) = false.
+Lemma chan_diff_fuel_log : forall c log vis s m, server_ok c -> moof m = false -> moof (chan_diff (fuel_of log) c log vis s m) = false.
 Proof.
   intros. apply chan_diff_fuel; auto. unfold fuel_of. pose proof (pend_le_log log s (bstate (mbox m s)) (vis s)). lia.
 Qed.
 
-Lemma mstep_moof : forall c log m o, moof m = false -> moof (mstep c log m o) = false.
+Lemma mstep_moof : forall c log m o, server_ok c -> moof m = false -> moof (mstep c log m o) = false.
 Proof.
-  intros c log m o Hm. destruct o; cbn [mstep].
+  intros c log m o Hok Hm. destruct o; cbn [mstep].
   - assert (H : moof (fst (fst (pushc_apply c log vis m cid sq ids p))) = false).
     { unfold pushc_apply. destruct (sq =? 0); [simpl; apply push_moof; auto|].
       destruct (handle _ _) as [sb evs]. simpl.
@@ -1419,52 +1438,52 @@ Proof.
     apply IHl. apply chan_diff_fuel_log; auto.
 Qed.
 
-Theorem never_out_of_fuel : forall c log ops, moof (mrun c log ops) = false.
+Theorem never_out_of_fuel : forall c log ops, server_ok c -> moof (mrun c log ops) = false.
 Proof.
-  intros c log ops. unfold mrun. generalize (eq_refl : moof (mgr_init c) = false). generalize (mgr_init c).
+  intros c log ops Hok. unfold mrun. generalize (eq_refl : moof (mgr_init c) = false). generalize (mgr_init c).
   induction ops as [|o t IH]; intros m Hm; simpl; auto. apply IH. apply mstep_moof; auto.
 Qed.
 
 (* unconditional forms *)
 Theorem no_loss_common_total : forall c log ops vis,
-  wf_log log ->
+  wf_log log -> server_ok c ->
   forall s e, (s = 0 \/ s = 1) -> In e log -> eseq e = s -> base c s < epos e <= vis s ->
               accounted s e (mtr (mrun c log (ops ++ [MTooLong vis]))).
-Proof. intros. eapply no_loss_common; eauto. apply never_out_of_fuel. Qed.
+Proof. intros. eapply no_loss_common; eauto. apply never_out_of_fuel; auto. Qed.
 Theorem no_loss_channel_total : forall c log ops vis s,
-  wf_log log -> 2 <= s < nseq c -> mtracked (mrun c log ops) s = true ->
+  wf_log log -> server_ok c -> 2 <= s < nseq c -> mtracked (mrun c log ops) s = true ->
   forall e, In e log -> eseq e = s -> base c s < epos e <= vis s ->
             accounted s e (mtr (mrun c log (ops ++ [MChanTooLong vis s]))).
-Proof. intros. eapply no_loss_channel; eauto. apply never_out_of_fuel. Qed.
+Proof. intros. eapply no_loss_channel; eauto. apply never_out_of_fuel; auto. Qed.
 Theorem restart_common_total : forall c log ops pre post ops2 vis,
-  wf_log log -> mtr (mrun c log ops) = pre ++ post ->
+  wf_log log -> server_ok c -> mtr (mrun c log ops) = pre ++ post ->
   forall s e, (s = 0 \/ s = 1) -> In e log -> eseq e = s -> base c s < epos e <= vis s ->
               accounted s e pre \/
               accounted s e (mtr (mrun (rebase c (fun s => persisted c s pre)) log (ops2 ++ [MTooLong vis]))).
-Proof. intros. eapply restart_common; eauto. apply never_out_of_fuel. Qed.
+Proof. intros. eapply restart_common; eauto. apply never_out_of_fuel. apply rebase_ok; auto. Qed.
 Theorem restart_channel_total : forall c log ops pre post ops2 vis s,
-  wf_log log -> 2 <= s < nseq c -> mtr (mrun c log ops) = pre ++ post ->
+  wf_log log -> server_ok c -> 2 <= s < nseq c -> mtr (mrun c log ops) = pre ++ post ->
   mtracked (mrun (rebase c (fun s => persisted c s pre)) log ops2) s = true ->
   forall e, In e log -> eseq e = s -> base c s < epos e <= vis s ->
             accounted s e pre \/
             accounted s e (mtr (mrun (rebase c (fun s => persisted c s pre)) log (ops2 ++ [MChanTooLong vis s]))).
-Proof. intros. eapply restart_channel; eauto. apply never_out_of_fuel. Qed.
+Proof. intros. eapply restart_channel; eauto. apply never_out_of_fuel. apply rebase_ok; auto. Qed.
 
 (* the explicit recovery signal: an unnumbered container carrying updatePtsChanged always ends
    with a completed getDifference *)
 Theorem no_loss_pts_changed : forall c log ops vis cid ids,
-  wf_log log ->
+  wf_log log -> server_ok c ->
   forall s e, (s = 0 \/ s = 1) -> In e log -> eseq e = s -> base c s < epos e <= vis s ->
               accounted s e (mtr (mrun c log (ops ++ [MPushC vis cid 0 ids true]))).
 Proof.
-  intros c log ops vis cid ids Hwf s e Hs H1 H2 H4.
+  intros c log ops vis cid ids Hwf Hok s e Hs H1 H2 H4.
   assert (HI : Inv c log (mrun c log (ops ++ [MPushC vis cid 0 ids true]))) by (apply mrun_inv; auto).
-  pose proof (never_out_of_fuel c log (ops ++ [MPushC vis cid 0 ids true])) as Hf.
+  pose proof (never_out_of_fuel c log (ops ++ [MPushC vis cid 0 ids true]) Hok) as Hf.
   rewrite mrun_snoc in *. cbn [mstep] in *.
   destruct (pushc_apply c log vis (mrun c log ops) cid 0 ids true) as [[m1 rc] sb] eqn:Ep.
   unfold pushc_apply in Ep. change (0 =? 0) with true in Ep. cbv iota in Ep. injection Ep as <- <- <-.
   assert (Hf' : moof (get_diff (fuel_of log) c log vis (push c log vis (mrun c log ops) ids)) = false) by exact Hf.
-  pose proof (get_diff_drained _ _ _ _ _ Hf') as Hd. apply app_eq_nil in Hd. destruct Hd as [Hd0 Hd1].
+  pose proof (get_diff_drained _ _ _ _ _ Hok Hf') as Hd. apply app_eq_nil in Hd. destruct Hd as [Hd0 Hd1].
   destruct Hs as [->| ->].
   - apply (drained_cov c log _ 0 (vis 0) e HI Hd0 H1 H2); lia.
   - apply (drained_cov c log _ 1 (vis 1) e HI Hd1 H1 H2); lia.
@@ -1472,24 +1491,167 @@ Qed.
 (* numbered containers: if applySeq applies a batch in which ANY container carries
    updatePtsChanged, a completed getDifference follows *)
 Theorem no_loss_pts_changed_seq : forall c log ops vis cid sq ids p,
-  wf_log log -> sq <> 0 ->
+  wf_log log -> server_ok c -> sq <> 0 ->
   snd (fst (pushc_apply c log vis (mrun c log ops) cid sq ids p)) = true ->
   forall s e, (s = 0 \/ s = 1) -> In e log -> eseq e = s -> base c s < epos e <= vis s ->
               accounted s e (mtr (mrun c log (ops ++ [MPushC vis cid sq ids p]))).
 Proof.
-  intros c log ops vis cid sq ids p Hwf Hsq Hrc s e Hs H1 H2 H4.
+  intros c log ops vis cid sq ids p Hwf Hok Hsq Hrc s e Hs H1 H2 H4.
   assert (HI : Inv c log (mrun c log (ops ++ [MPushC vis cid sq ids p]))) by (apply mrun_inv; auto).
-  pose proof (never_out_of_fuel c log (ops ++ [MPushC vis cid sq ids p])) as Hf.
+  pose proof (never_out_of_fuel c log (ops ++ [MPushC vis cid sq ids p]) Hok) as Hf.
   rewrite mrun_snoc in *. cbn [mstep] in *.
   destruct (pushc_apply c log vis (mrun c log ops) cid sq ids p) as [[m1 rc] sb] eqn:Ep. simpl in Hrc. subst rc.
   assert (Esb : exists b, sb = Some b).
   { unfold pushc_apply in Ep. destruct (Z.eqb_spec sq 0); [contradiction|]. destruct (handle _ _). inversion Ep. eauto. }
   destruct Esb as [b ->].
   assert (Hf' : moof (get_diff (fuel_of log) c log vis m1) = false) by exact Hf.
-  pose proof (get_diff_drained _ _ _ _ _ Hf') as Hd. apply app_eq_nil in Hd. destruct Hd as [Hd0 Hd1].
+  pose proof (get_diff_drained _ _ _ _ _ Hok Hf') as Hd. apply app_eq_nil in Hd. destruct Hd as [Hd0 Hd1].
   assert (Hb : forall s1, 0 <= s1 -> mbox (set_box (get_diff (fuel_of log) c log vis m1) SEQ b) s1 = mbox (get_diff (fuel_of log) c log vis m1) s1).
   { intros s1 Hs1. apply set_box_other. unfold SEQ; lia. }
   destruct Hs as [->| ->].
   - apply (drained_cov c log _ 0 (vis 0) e HI); auto; try lia; rewrite Hb; auto; lia.
   - apply (drained_cov c log _ 1 (vis 1) e HI); auto; try lia; rewrite Hb; auto; lia.
+Qed.
+
+(* the harness's fake server (limits / thresholds) satisfies the contract *)
+Lemma std_server_ok : forall n b tr sl tl csl ctl, server_ok (std_config n b tr sl tl csl ctl).
+Proof.
+  intros. constructor; simpl.
+  - intros. eapply slice_cut2_final; eauto.
+  - intros. eapply slice_cut2_bounds; eauto.
+  - intros. eapply slice2_shrinks; eauto.
+  - intros vis. apply andb_false_iff. destruct (Z.ltb_spec 0 tl); [right|left; reflexivity].
+    rewrite Z.sub_diag, Z.gtb_ltb. apply Z.ltb_ge. lia.
+  - intros vis rp a H Ha. apply andb_false_iff. apply andb_false_iff in H. destruct H as [H|H]; [left; exact H|right].
+    rewrite Z.gtb_ltb in *. apply Z.ltb_ge in H. apply Z.ltb_ge. lia.
+  - intros. eapply slice_cut_final; eauto.
+  - intros log s req v a sl0 Hr H. unfold slice_cut in H.
+    destruct ((0 <? csl) && (csl <? Z.of_nat (length (pend log s req v)))) eqn:Eb; inversion H; subst; [|lia].
+    apply andb_prop in Eb. destruct Eb as [Eb1 Eb2]. apply Z.ltb_lt in Eb1, Eb2.
+    assert (Hn : In (nth (Z.to_nat (csl - 1)) (pend log s req v) dflt_entry) (pend log s req v)) by (apply nth_In; lia).
+    rewrite pend_in in Hn. lia.
+  - intros. eapply pend_shrinks; eauto.
+Qed.
+
+(* ---------- the other recovery triggers: gap / idle timers, startup ---------- *)
+Theorem no_loss_timer_common : forall c log ops vis,
+  wf_log log -> server_ok c ->
+  forall s e, (s = 0 \/ s = 1) -> In e log -> eseq e = s -> base c s < epos e <= vis s ->
+              accounted s e (mtr (mrun c log (ops ++ [MTimerCommon vis]))).
+Proof.
+  intros c log ops vis Hwf Hok s e Hs H1 H2 H4.
+  pose proof (no_loss_common_total c log ops vis Hwf Hok s e Hs H1 H2 H4) as P.
+  rewrite mrun_snoc in *. exact P.
+Qed.
+Theorem no_loss_timer_channel : forall c log ops vis s,
+  wf_log log -> server_ok c -> 2 <= s < nseq c -> mtracked (mrun c log ops) s = true ->
+  forall e, In e log -> eseq e = s -> base c s < epos e <= vis s ->
+            accounted s e (mtr (mrun c log (ops ++ [MTimerChan vis s]))).
+Proof.
+  intros c log ops vis s Hwf Hok Hs Ht e H1 H2 H4.
+  pose proof (no_loss_channel_total c log ops vis s Hwf Hok Hs Ht e H1 H2 H4) as P.
+  rewrite mrun_snoc in *. exact P.
+Qed.
+
+Lemma fold_chan_other : forall c log vis l m s1, ~ In s1 l ->
+  mbox (fold_left (fun m s => chan_diff (fuel_of log) c log vis s m) l m) s1 = mbox m s1.
+Proof.
+  induction l as [|s t IH]; intros m s1 Hn; cbn [fold_left]; auto.
+  rewrite IH; [|intro; apply Hn; simpl; auto]. apply chan_diff_other. intros ->; apply Hn; simpl; auto.
+Qed.
+Theorem no_loss_startup_common : forall c log ops vis,
+  wf_log log -> server_ok c ->
+  forall s e, (s = 0 \/ s = 1) -> In e log -> eseq e = s -> base c s < epos e <= vis s ->
+              accounted s e (mtr (mrun c log (ops ++ [MStartup vis]))).
+Proof.
+  intros c log ops vis Hwf Hok s e Hs H1 H2 H4.
+  assert (HI : Inv c log (mrun c log (ops ++ [MStartup vis]))) by (apply mrun_inv; auto).
+  rewrite mrun_snoc in *. cbn [mstep] in *.
+  assert (Hf : moof (get_diff (fuel_of log) c log vis (mrun c log ops)) = false).
+  { apply get_diff_fuel_log; auto. apply never_out_of_fuel; auto. }
+  pose proof (get_diff_drained _ _ _ _ _ Hok Hf) as Hd. apply app_eq_nil in Hd. destruct Hd as [Hd0 Hd1].
+  assert (Hn : forall s1, s1 = 0 \/ s1 = 1 -> ~ In s1 (filter (tracked0 c) (chan_seqs c))).
+  { intros s1 Hs1 Hin. rewrite filter_In in Hin. destruct Hin as [Hin _]. unfold chan_seqs in Hin.
+    rewrite in_map_iff in Hin. destruct Hin as (i & E & _). lia. }
+  destruct Hs as [->| ->].
+  - apply (drained_cov c log _ 0 (vis 0) e HI); auto; try lia. rewrite fold_chan_other; auto.
+  - apply (drained_cov c log _ 1 (vis 1) e HI); auto; try lia. rewrite fold_chan_other; auto.
+Qed.
+
+(* ---------- manager-level ordering (C01) at quiescent points ---------- *)
+(* whatever has been delivered, everything of its sequence below its start has been delivered
+   (or reported too long) too.  Inside one fetched difference the handler receives
+   other_updates before new_messages; the positions in between are covered by that very
+   difference, and by the time the difference is applied the set is downward closed. *)
+Theorem manager_in_order : forall c log ops,
+  wf_log log -> NoDup (map eid log) -> server_ok c -> vis_ok c log (mgr_init c) ops ->
+  forall s e e', 0 <= s -> In e log -> eseq e = s -> In (Deliver s (eid e)) (mtr (mrun c log ops)) ->
+                 In e' log -> eseq e' = s -> base c s < epos e' <= epos e - ecnt e ->
+                 accounted s e' (mtr (mrun c log ops)).
+Proof.
+  intros c log ops Hwf Hu Hok Hv s e e' Hs H1 H2 Hd H1' H2' Hr.
+  assert (HI : Inv c log (mrun c log ops)) by (apply mrun_inv; auto).
+  assert (H2i : Inv2 log (mrun c log ops)).
+  { apply mrun_from_inv2; auto; [apply mgr_init_inv|]. constructor; simpl; [intros s0 id _ []|constructor]. }
+  destruct (inv2_old _ _ H2i s (eid e) Hs Hd) as (e0 & A1 & A2 & A3 & A4).
+  assert (e0 = e) by (eapply eid_inj; eauto). subst e0.
+  destruct (upd_of_cnt log e Hwf H1 ltac:(lia)) as [_ Hc].
+  apply (inv_cov _ _ _ HI); auto. lia.
+Qed.
+
+(* ---------- C03 for the real, interleaved trace ---------- *)
+Definition ev_seq (ev : tev) : Z := match ev with Deliver s _ | Persist s _ | TooLong s _ _ => s end.
+Definition proj (s : Z) (tr : list tev) : list tev := filter (fun ev => ev_seq ev =? s) tr.
+Definition safe_seq (c : config) (log : list entry) (s : Z) (tr : list tev) : Prop :=
+  forall e, In e log -> eseq e = s -> base c s < epos e <= persisted c s tr -> accounted s e tr.
+
+Lemma persisted_proj : forall c s tr, persisted c s (proj s tr) = persisted c s tr.
+Proof.
+  intros c s tr. unfold persisted. generalize (base c s). induction tr as [|ev t IH]; intros d; simpl; auto.
+  destruct ev as [s' id|s' v|s' f t0]; simpl; destruct (Z.eqb_spec s' s); simpl; try apply IH.
+  subst. rewrite Z.eqb_refl. apply IH.
+Qed.
+Lemma in_proj : forall s ev tr, ev_seq ev = s -> (In ev (proj s tr) <-> In ev tr).
+Proof.
+  intros s ev tr H. unfold proj. rewrite filter_In. rewrite H, Z.eqb_refl. tauto.
+Qed.
+Lemma accounted_proj : forall s e tr, accounted s e (proj s tr) <-> accounted s e tr.
+Proof.
+  intros s e tr. unfold accounted. rewrite in_proj by reflexivity.
+  split; (intros [H|(f & t & H & Hr)]; [left; auto|right; exists f, t; split; auto]);
+    [rewrite in_proj in H by reflexivity|rewrite in_proj by reflexivity]; auto.
+Qed.
+Lemma safe_at_proj : forall c log tr, safe_at c log tr <-> (forall s, 0 <= s -> safe_seq c log s (proj s tr)).
+Proof.
+  intros c log tr. unfold safe_at, safe_seq. split.
+  - intros H s Hs e H1 H2 H3. rewrite accounted_proj. rewrite persisted_proj in H3. apply H; auto.
+  - intros H s e H1 H2 Hs H3. rewrite <- accounted_proj. apply (H s Hs e H1 H2). rewrite persisted_proj. auto.
+Qed.
+(* a prefix of a projection is the projection of a prefix *)
+Lemma prefix_of_proj : forall s tr p q, proj s tr = p ++ q -> exists pre post, tr = pre ++ post /\ proj s pre = p.
+Proof.
+  intros s tr. induction tr as [|a t IH]; intros p q H; simpl in H.
+  - symmetry in H. apply app_eq_nil in H. destruct H as [-> _]. exists [], []. auto.
+  - destruct (ev_seq a =? s) eqn:E.
+    + destruct p as [|b p'].
+      * exists [], (a :: t). auto.
+      * simpl in H. inversion H; subst. destruct (IH _ _ H2) as (pre & post & -> & Hp).
+        exists (b :: pre), post. split; auto. simpl. rewrite E, Hp. reflexivity.
+    + destruct (IH _ _ H) as (pre & post & -> & Hp).
+      exists (a :: pre), post. split; auto. simpl. rewrite E. exact Hp.
+Qed.
+
+(* Any trace that has, per sequence, the program order of the model's trace (i.e. any
+   interleaving of the main loop and the channel workers) is safe at every prefix. *)
+Theorem prefix_safe_interleaved : forall c log ops tr',
+  wf_log log ->
+  (forall s, 0 <= s -> proj s tr' = proj s (mtr (mrun c log ops))) ->
+  forall pre' post', tr' = pre' ++ post' -> safe_at c log pre'.
+Proof.
+  intros c log ops tr' Hwf Hp pre' post' E. rewrite safe_at_proj. intros s Hs.
+  assert (E2 : proj s (mtr (mrun c log ops)) = proj s pre' ++ proj s post').
+  { rewrite <- Hp by auto. rewrite E. unfold proj. apply filter_app. }
+  destruct (prefix_of_proj _ _ _ _ E2) as (pre & post & Em & Epre).
+  pose proof (prefix_safe c log ops pre post Hwf Em) as Hsafe.
+  rewrite safe_at_proj in Hsafe. rewrite <- Epre. apply Hsafe; auto.
 Qed.
